@@ -578,13 +578,14 @@ theorem makeAll_no_err : ∀ (ns : List String) (sigs : List Signal) (e : DigErr
     | panic m => simp
 
 /-- **The two ways a description is refused** (neither is a panic): a test whose source has no header line, and a
-header name that is neither a pin nor the `_out` side of an input — every name reported missing stands in a header and
-names no signal. -/
+header name that is neither a pin, nor the `_out` side of an input, nor a virtual signal the test declares itself
+(fix F22) — every name reported missing stands in the header of a test that does not declare it, and names no signal. -/
 theorem C16_errors (inputs outputs : List Signal) (tests : List TestDesc) :
     (digAssemble inputs outputs tests = .err .emptyTest ↔ ∃ t ∈ tests, headerNames t.source = none) ∧
     (∀ ms, digAssemble inputs outputs tests = .err (.missingSignals ms) →
       ms ≠ [] ∧ ∃ hdrs, tests.mapM (fun t => headerNames t.source) = some hdrs ∧
-        ∀ n ∈ ms, n ∈ hdrs.flatten ∧ (inputs ++ outputs).any (fun s => s.name == n) = false) := by
+        ∀ n ∈ ms, n ∈ hdrs.flatten ∧ (inputs ++ outputs).any (fun s => s.name == n) = false ∧
+          ∃ p ∈ tests.zip hdrs, n ∈ p.2 ∧ (declaredNames p.1.source).contains n = false) := by
   constructor
   · rw [← mapM_none_iff]
     unfold digAssemble
@@ -612,7 +613,13 @@ theorem C16_errors (inputs outputs : List Signal) (tests : List TestDesc) :
         refine ⟨by intro he; rw [he] at hne; simp at hne, hdrs, rfl, ?_⟩
         intro n hn
         simp only [List.mem_filter, Bool.not_eq_true'] at hn
-        exact ⟨classify_plain _ _ n hn.1, hn.2⟩
+        obtain ⟨hmem, hnot⟩ := hn
+        simp only [List.mem_flatten, List.mem_map] at hmem
+        obtain ⟨l, ⟨p, hp, rfl⟩, hnl⟩ := hmem
+        simp only [pinNamesOf, List.mem_filter, Bool.not_eq_true'] at hnl
+        have hin : n ∈ p.2 := classify_plain _ _ n hnl.1
+        have hp2 : p.2 ∈ hdrs := (List.of_mem_zip hp).2
+        exact ⟨List.mem_flatten.mpr ⟨p.2, hp2, hin⟩, hnot, p, hp, hin, hnl.2⟩
       · cases hr : makeAllBidirectional (dedupNames (classifyNames (inputs ++ outputs) hdrs.flatten).1) (inputs ++ outputs) with
         | ok r => simp [hr] at h
         | err e => exact absurd hr (makeAll_no_err _ _ e)
@@ -665,8 +672,24 @@ def exDoc : Xml := .elem "circuit" [] [.elem "visualElements" [] [pinX "Out" "Q"
 loads, and `A` comes out bidirectional, in front of `Q` -/
 example : (match digParse exDoc with
     | .ok f => f.signals.map (fun s => (s.name, isInputTyp s, s.isInput, s.isOutput)) == [("A", false, true, true), ("Q", false, false, true)]
-    | _ => false) = true := by decide
+    | _ => false) = true := by decide +kernel
 
+
+/-! ## A column for a signal the test declares itself (fix F22) -/
+
+def exDocV : Xml := .elem "circuit" [] [.elem "visualElements" []
+  [pinX "In" "A", pinX "Out" "B", testX "A B\n0 1\n", testX "A B V\ndeclare V = B + 1;\n0 1 2\n"]]
+/-- a test with a column for the virtual signal it declares loads: the document keeps the pins as they are, and
+`load_test(1)` is the source parsed and bound — the declared signal appended, 64 bits wide -/
+example : (match digParse exDocV with
+    | .ok f => f.signals.map (·.name) == ["A", "B"] &&
+        (match loadTest f 1 with | .ok tc => tc.signals.map (fun s => (s.name, s.bits)) == [("A", 1), ("B", 1), ("V", 64)] | _ => false)
+    | _ => false) = true := by decide +kernel
+
+def exDocV2 : Xml := .elem "circuit" [] [.elem "visualElements" []
+  [pinX "In" "A", pinX "Out" "B", testX "A B V\ndeclare V = B + 1;\n0 1 2\n", testX "A B V\n0 1 2\n"]]
+/-- … but only for the test that declares it: the same column in a test without the declaration names no signal -/
+example : (match digParse exDocV2 with | .err (.missingSignals ms) => ms == ["V"] | _ => false) = true := by decide +kernel
 
 /-! ## Empty text nodes (fix F20) -/
 
